@@ -253,9 +253,37 @@ func (c *wcase) pluginNodes() *xnode {
 	}
 	plug := el("plugin", leaf("groupId", "org.apache.maven.plugins"), leaf("artifactId", "maven-compiler-plugin"),
 		leaf("version", "3.11.0"), conf)
-	pm := el("plugin", leaf("groupId", "org.plug"), leaf("artifactId", "managed"), leaf("version", "1.0"),
-		el("dependencies", el("dependency", leaf("groupId", "org.plugdep"), leaf("artifactId", "pd"), leaf("version", "1.0"))))
+	pdv := leaf("version", "1.0")
+	pdv.flag = "plg"
+	pdeps := el("dependencies", el("dependency", leaf("groupId", "org.plugdep"), leaf("artifactId", "pd"), pdv))
+	pm := el("plugin", leaf("groupId", "org.plug"), leaf("artifactId", "managed"), leaf("version", "1.0"), pdeps)
+	if c.pluginNoGroup() {
+		// legal: a plugin without <groupId> belongs to org.apache.maven.plugins
+		pm = el("plugin", leaf("artifactId", "managed"), leaf("version", "1.0"), pdeps)
+	}
 	return el("build", el("pluginManagement", el("plugins", pm)), el("plugins", plug))
+}
+
+// pluginNoGroup: the managed plugin omits its <groupId> (chosen by the shape of the case so that both spellings occur).
+func (c *wcase) pluginNoGroup() bool { return len(c.Entries)%2 == 0 }
+
+// pluginUpdate: with the plugin block present and at least one update requested, the dependency of the managed
+// plugin is updated as well (1.0 -> 2.0); it shares no key or property with the abstract entries, so every other
+// expectation is unaffected.
+func (c *wcase) pluginUpdate() bool { return c.Layout.Plugins && (len(c.Ups) > 0 || c.Add != "") }
+
+const plgName, plgTo = "org.plugdep:pd", "2.0"
+
+func findPlg(rs []mreq) (mreq, int) {
+	var got mreq
+	n := 0
+	for _, r := range rs {
+		if r.name == plgName { // the reader reports it among the requirements for updates (with an empty origin attribute)
+			got = r
+			n++
+		}
+	}
+	return got, n
 }
 
 // inheritsCoords: the local parent omits <groupId> and <version> and inherits them from a grandparent pom
@@ -561,6 +589,16 @@ func runMaven(c *wcase, dir string, o *wobs, dump bool) {
 		r := reqOf[u.E]
 		ups = append(ups, result.PackageUpdate{Name: r.name, VersionFrom: r.version, VersionTo: u.To, Type: r.typ.Clone()})
 	}
+	if c.pluginUpdate() {
+		r, n := findPlg(v0.rfu)
+		if n != 1 {
+			o.Sane = false
+			o.Why = fmt.Sprintf("%d requirements-for-updates for the managed plugin's dependency", n)
+			return
+		}
+		o.PlgWant = plgTo
+		ups = append(ups, result.PackageUpdate{Name: r.name, VersionFrom: r.version, VersionTo: plgTo, Type: r.typ.Clone()})
+	}
 	if c.Add != "" {
 		t := dep.NewType()
 		t.AddAttr(dep.MavenDependencyOrigin, "management")
@@ -621,6 +659,10 @@ func runMaven(c *wcase, dir string, o *wobs, dump bool) {
 	if c.Par {
 		cmpFile("pom.xml", pinToks, pout, pflags, false)
 	}
+	if v, ok := o.Changed["plg"]; ok {
+		o.PlgText = v
+		delete(o.Changed, "plg")
+	}
 	sort.Slice(o.Added, func(i, j int) bool { return o.Added[i].K < o.Added[j].K })
 	sort.Strings(o.Lost)
 	// (i) re-read with the real reader
@@ -640,4 +682,11 @@ func runMaven(c *wcase, dir string, o *wobs, dump bool) {
 		o.Reqs = append(o.Reqs, kv{ID: 0, K: "added", V: fmt.Sprintf("%s x%d", r.version, n)})
 	}
 	o.NReq[1] = len(v1.reqs) + len(v1.rfu)
+	if c.Layout.Plugins {
+		if r, n := findPlg(v1.rfu); n == 1 {
+			o.PlgRead = r.version
+		} else {
+			o.PlgRead = fmt.Sprintf("!%d requirements", n)
+		}
+	}
 }
